@@ -729,7 +729,7 @@ def run(res, tier):
         std.run_lab(res, PID, tier, area="hits", gens=["hits", "hitspage"], gen_scenarios=gen_scenarios,
                     run_impl=run_impl, to_case=to_case, oracle=oracle,
                     corr_name="HitsModel (store machine, stored format) vs the running squid",
-                    n_quick=int(os.environ.get("VERIF_C10_N", "50")), n_thorough=2500, seed_salt=10,
+                    n_quick=int(os.environ.get("VERIF_C10_N", "40")), n_thorough=2500, seed_salt=10,
                     kind_fn=kind_fn, nontrivial_fn=lambda s, o: bool(s.get("_nh")))
         res.extra["lab_timing"] = _state.get("timing")
         if _state.get("bad"):
@@ -737,3 +737,13 @@ def run(res, tier):
                      % ", ".join(_state["bad"]), {"instances": _state["bad"]})
     finally:
         _state.clear()
+        # a squid that died (assertion) leaves its shared memory segments behind; this tree names them <service>-XXXX-*
+        try:
+            for f in os.listdir("/dev/shm"):
+                if f.startswith("vc10") and ("p%d-" % os.getpid()) in f:
+                    try:
+                        os.unlink(os.path.join("/dev/shm", f))
+                    except OSError:
+                        pass
+        except OSError:
+            pass
